@@ -50,7 +50,23 @@ type asmCtx struct {
 }
 
 func newAsmCtx(p *core.Program, rel, recvType string) *asmCtx {
-	return &asmCtx{p: p, pk: p.Pkg(rel), recvType: recvType, em: emitModel{p}, maxPaths: 512, cache: map[string][]asmSeq{}}
+	a := &asmCtx{p: p, pk: p.Pkg(rel), recvType: recvType, em: emitModel{p}, maxPaths: 512, cache: map[string][]asmSeq{}}
+	if rel == "internal/encoder/x86" {
+		// buffer-management helpers of the encoder are summarised, not inlined: their loops and
+		// growth paths multiply the sequences of every handler without adding facts any rule uses
+		a.noInline = map[string]bool{"add_text": true, "store_str": true, "check_size": true, "check_size_r": true, "check_size_rl": true, "slice_grow_ax": true}
+	}
+	return a
+}
+
+// anyTrunc reports whether some sequence hit the inlining bound (the rule then has no verdict).
+func anyTrunc(seqs []asmSeq) bool {
+	for _, s := range seqs {
+		if s.Trunc {
+			return true
+		}
+	}
+	return false
 }
 
 // evalIn evaluates an expression to a constant under env (ints, bools, nil-ness, strings).
